@@ -45,9 +45,12 @@ package cfedistributor
 //@   panic_requires shareListsBounded(genState.Params.SubDistributors)
 //@   modifies $stLogN, $stLogRem, $kvHas, $kvVal
 //@   ensures $stLogN == old($stLogN) + len(genState.States)
+//@   // every state is written with exactly the leftovers the genesis carries for it (the burn state's too), in order
+//@   ensures [remains] forall i: int :: {genState.States[i]} 0 <= i && i < len(genState.States) ==> $stLogRem[old($stLogN) + i] == genState.States[i].Remains
 //@   prop C10 C12
 //@ loop InitGenesis#1
 //@   invariant 0 <= \i && \i <= len(genState.States) && $stLogN == old($stLogN) + \i
+//@   invariant forall j: int :: {genState.States[j]} 0 <= j && j < \i ==> $stLogRem[old($stLogN) + j] == genState.States[j].Remains
 
 //@ // export: the stored parameters and states; a burn state is written without its (empty) account, as State.Validate demands
 //@ func ExportGenesis(ctx, k) (genesis)
